@@ -80,6 +80,23 @@ func c13BaseScenarios() []*c13Base {
 		}
 		out = append(out, b)
 	}
+	// 4. MPEG-TS, multivariant, video + audio rendition (the rendition has its own downloader and MPEG-TS processor)
+	{
+		st, err := c10Build(c10Case{Container: "ts", Tracks: "v+a", Frags: 1, PDT: true, VOD: true, NSeg: 3})
+		if err != nil {
+			panic(err)
+		}
+		b := &c13Base{name: "ts-v+a", entry: "index.m3u8", res: map[string][]byte{}}
+		srv := st.server()
+		b.res["index.m3u8"] = srv.handler(0, "/index.m3u8", "", nil).Body
+		for ri, r := range st.rends {
+			b.res[fmt.Sprintf("r%d.m3u8", ri)] = []byte(st.playlist(ri))
+			for j, s := range r.segs {
+				b.res[fmt.Sprintf("r%d_seg%d", ri, j)] = s.Body
+			}
+		}
+		out = append(out, b)
+	}
 	return out
 }
 
